@@ -4,7 +4,7 @@
    The 14 generated tables (Gen/ConfigSchemas.v, re-read from the config.go files at every run) are shown to
    satisfy the obligations by computation, so the generic statements hold of every section. *)
 From Coq Require Import String List ZArith Bool.
-From V Require Import Model.C15_Config Model.C15_Valid Model.C15_Manager Gen.ConfigSchemas Proofs.C15_Config Proofs.C15_Tables Proofs.C15_Manager.
+From V Require Import Model.C15_Config Model.C15_Valid Model.C15_Manager Model.C15_Custom Gen.ConfigSchemas Gen.ConfigValidators Gen.ConfigCustoms Proofs.C15_Config Proofs.C15_Tables Proofs.C15_Manager.
 From V Require Import Model.C15_Check Proofs.C15_Monitor.
 Import ListNotations.
 Open Scope string_scope.
@@ -70,14 +70,32 @@ Theorem secrets_tagged : forallb (fun S => forallb secret_tagged (sfields S)) al
 Proof. exact secrets_tagged_l. Qed.
 Print Assumptions secrets_tagged.
 
-(* the hand transcriptions of Validate (Model/C15_Valid.v) and of the custom rules were made from the current source text *)
-Theorem validators_pinned : forallb pin_ok all_schemas = true.
-Proof. exact validators_pinned_l. Qed.
-Print Assumptions validators_pinned.
+(* the Validate() method of every section, translated from the current source (Gen/ConfigValidators.v: gen_validators,
+   one clause per place where the method rejects), is the validator of the model (Model/C15_Valid.v: validators),
+   as a function of every oracle and every configuration *)
+Theorem validators_source_is_model S : In S all_schemas ->
+  exists G M, assoc_get (sname S) gen_validators = Some G /\ assoc_get (sname S) validators = Some M
+              /\ forall (orc : oracle) (c : cfg_view), G orc c = M orc c.
+Proof. exact (validators_source_is_model_l S). Qed.
+Print Assumptions validators_source_is_model.
 
+Theorem validator_of_is_source S (orc : oracle) (c : cfg_view) : In S all_schemas ->
+  gen_validator_of (sname S) orc c = validator_of (sname S) orc c.
+Proof. exact (gen_validator_of_model S orc c). Qed.
+Print Assumptions validator_of_is_source.
+
+(* every load / save rule outside the generic rule set (LCustom / SCustom) is either translated from the source to the
+   model's rule (Gen/ConfigCustoms.v against model_custom_rules) or pinned to the hash of its source text *)
 Theorem customs_pinned : forallb custom_pin_ok all_schemas = true.
 Proof. exact customs_pinned_l. Qed.
 Print Assumptions customs_pinned.
+
+(* crdt trusted_peers: the loop of applyJSONConfig and the branch of toJSONConfig, as translated from the source and
+   executed on the Config members TrustAll / TrustedPeers, are the model's custom_load *)
+Theorem customs_source_is_model : exists F, custom_sem gen_custom_rules "crdt.trusted_peers" = Some F
+  /\ forall k cur v, F v = custom_load "crdt.trusted_peers" k cur v.
+Proof. exact customs_source_is_model_l. Qed.
+Print Assumptions customs_source_is_model.
 
 (* for every component the default configuration is valid (whatever the external checks answer) *)
 Theorem defaults_valid S orc : In S all_schemas -> validator_of (sname S) orc (cget S (defaults S)) = true.
